@@ -546,7 +546,7 @@ func c13Explore(c *fw.Ctx, be string, nm int, loggedIn bool) {
 	}
 	full, maxd := fw.Pick(c, 2, 3), fw.Pick(c, 4, 6)
 	if loggedIn && !c.Thorough() {
-		full, maxd = 3, 5
+		full, maxd = 3, 4
 	}
 	tr := func(seq []int) []int {
 		out := append([]int{}, prelude...)
